@@ -178,6 +178,29 @@ def main(tier):
                     run.count("capacity.full-value")
             else:
                 run.count("capacity.error")
+        # ---------- (B2) source-text bodies compiled lazily (NewComputedVal, values restored from JSON, RunExpr, the default-sides
+        #      expression): a body beyond the code capacity is an error on EVERY evaluation — a failed first compile must not leave a
+        #      truncated program behind for the second
+        lz, lzmeta = [], []
+        for n in [10, 4000, 4097, 5000] + ([9000] if tier == "thorough" else []):
+            body = "1" + "+1" * n
+            for kind in ("computed", "compjson", "funcjson", "runexpr", "defsides"):
+                lz.append(f"lazybody -,L2000000 {1:032x} {kind} 3 {hx(body)}")
+                lzmeta.append((kind, n))
+        out = run.go_only("capacity-lazy", lz, go_timeout=900, line_timeout=60)
+        for (kind, n), (ln, g) in zip(lzmeta, out):
+            run.count("capacity.lazy-body")
+            run.nontriv(("lazy", kind, n))
+            parts = g.split(" | ")
+            rep = {"body": f"1{'+1' * 3}... ({n} additions)", "how_it_reaches_the_vm": kind, "evaluations": parts, "expected_full_value": n + 1}
+            if g.startswith("died") or "panic" in g:
+                run.violation("capacity:crash:lazy-body/" + kind, rep)
+                continue
+            for i, pz in enumerate(parts):
+                f = pz.split()
+                if f and f[0] == "ok" and (len(f) < 2 or f[1] != str(n + 1)):
+                    run.violation(f"capacity:truncated-value:lazy-body/{kind}/evaluation-{i + 1}", rep)
+                    break
         # ---------- (C) parse budget
         pl = []
         for n in [10, 100, 1000, 5000]:
